@@ -19,11 +19,14 @@ LIVE = ('created', 'running', 'waiting')
 
 
 class Cleanup:
-    def __init__(self):
+    def __init__(self, raises=False):
         self.calls = 0
+        self.raises = raises
 
     def __call__(self):
         self.calls += 1
+        if self.raises:
+            raise RuntimeError('cleanup failed (harness)')
 
 
 class Exec:
@@ -37,7 +40,8 @@ class Exec:
         self.samples = []
         self.transitions = []
         self.events = []
-        self.cleanups = [Cleanup(), Cleanup()]
+        raising = case.get('cleanup_raises')
+        self.cleanups = [Cleanup(raising == i) for i in range(3)]
         self.attach_listener = attach_listener
         self.sample_current = sample_current
         self.construct_error = None
@@ -92,6 +96,7 @@ class Exec:
         cls = make_process_class(case)
         pid = case.get('pid', 1)
         self.world.listener_plan[pid] = case.get('listener', [])
+        self.world.hook_plan[pid] = case.get('hooks', [])
         with self.loop.as_running():
             try:
                 self.proc = cls(inputs=programs.dec(case.get('inputs', (case.get('program') or {}).get('inputs'))), pid=pid, loop=self.loop, communicator=self.communicator)
@@ -107,6 +112,7 @@ class Exec:
     def attach(self, proc):
         """Attach monitors to a (new or restored) process."""
         self.proc = proc
+        self.world.extra.setdefault('constructed', set()).add(proc.pid)
         proc.add_state_event_callback(StateEventHook.ENTERED_STATE, self._entered)
         if self.attach_listener:
             self.listener = programs.ProgListener()
